@@ -164,6 +164,16 @@ def register(reg):
                 And(r >= 0, r < R, r != rs, t >= ro[r], t < ro[r + 1]), cur[t] == before[t]),
                 patterns=lambda r, t: [z3.MultiPattern(ro[r].z(), ro[r + 1].z(), cur[t].val)]),
              ['hint:frame', 'hint:other-rings-disjoint', 'req:ring-offsets-ok']),
+            ('other-flipped-rings-stay-reversed', forall(['int', 'int'], lambda r, t: Implies(
+                And(r >= 0, r < R, r != rs, t >= ro[r], t < ro[r + 1], needs_flip(v, po, ro, r), rank(r) < i),
+                cur[t] == v[mirror(ro[r], ro[r + 1], t)]),
+                patterns=lambda r, t: [z3.MultiPattern(ro[r].z(), ro[r + 1].z(), cur[t].val)]),
+             ['inv:rings-reversed', 'hint:other-cells-as-before']),
+            ('other-kept-rings-stay', forall(['int', 'int'], lambda r, t: Implies(
+                And(r >= 0, r < R, r != rs, t >= ro[r], t < ro[r + 1], Not(And(needs_flip(v, po, ro, r), rank(r) < i))),
+                cur[t] == v[t]),
+                patterns=lambda r, t: [z3.MultiPattern(ro[r].z(), ro[r + 1].z(), cur[t].val)]),
+             ['inv:rings-kept', 'hint:other-cells-as-before']),
         ]
 
     reg.add(Contract(ORI + '::orient_polygons',
@@ -171,10 +181,9 @@ def register(reg):
                       ('ring_offsets', Arr('int', 'uint32'))],
                      requires=req, ensures=ens, modifies=('values',),
                      loops={0: Loop(invariant=inv_ccw, var='i'), 1: Loop(invariant=inv_flip, var='i', hints=hints_flip, keep_using={
-                                    'rings-reversed': ['inv:rings-reversed', 'hint:done-next', 'hint:this-ring-now-reversed',
-                                                       'hint:other-cells-as-before', 'hint:this-ring-index'],
-                                    'rings-kept': ['inv:rings-kept', 'hint:done-next', 'hint:other-cells-as-before',
-                                                   'hint:this-ring-index']})},
+                                    'rings-reversed': ['hint:other-flipped-rings-stay-reversed', 'hint:done-next',
+                                                       'hint:this-ring-now-reversed', 'hint:this-ring-index'],
+                                    'rings-kept': ['hint:other-kept-rings-stay', 'hint:done-next', 'hint:this-ring-index']})},
                      props=P, fuel=2, solver_opts={'arith.nl': False}))
 
     # triangle_orientation (used by C01; lives in the same file)
